@@ -1,5 +1,5 @@
 (* C14 — HTTP responses encode protocol outcomes exactly. *)
-From TSS Require Import AStore Http proofs.Steps proofs.UrgencyArith proofs.Agree proofs.HttpProps proofs.HttpReach.
+From TSS Require Import AStore Http proofs.Steps proofs.UrgencyArith proofs.Agree proofs.HttpProps proofs.HttpReach proofs.HttpLib proofs.Inv Seq.
 Open Scope N_scope.
 
 (* the table of the property *)
@@ -47,3 +47,39 @@ Theorem C14_add_version_encodes : forall B cfg allow c p cs s E, client_id_heade
   fst (run_hprog B E (route cfg allow (mkReq MPost (PAddVersion (IdOk p)) (COk c) CTHistory cs)) s) =
   av_http_result B cfg E c p (body_of cs) s.
 Proof. exact av_route. Qed.
+
+(* the whole picture: every HTTP history — malformed and refused requests included — IS a
+   library history seen through the table.  lib_of gives, request by request, the library
+   operations a request stands for (none when the routing function refuses it; create-if-absent
+   then add_version for add-version; the operation itself otherwise); the freshness assumption
+   carries over, and the HTTP responses are a FUNCTION of the library responses: the refusal the
+   routing function computes without any storage call, or default_headers (encode r) for the
+   outcome r of the request's last operation.  Every theorem about library histories
+   (C01, C02, C07-C13, C18) is thereby a theorem about what HTTP clients observe. *)
+Theorem C14_http_history_is_library_history : forall k cfg allow h, cfg_ok cfg -> horacle_ok h ->
+  oracle_ok (lib_of allow h) /\ hresponses k cfg allow h = hresps_of cfg allow h (responses k cfg (lib_of allow h)).
+Proof. exact http_history_is_library_history. Qed.
+
+(* the reading of lib_of / hresps_of is pinned here *)
+Example C14_lib_of_reading : forall allow rq E h,
+  lib_of allow ((rq, E) :: h) = lib_of_req allow rq E ++ lib_of allow h /\
+  (forall c p cs, client_id_header allow (COk c) = inl c -> body_refused cs = false ->
+     lib_of_req allow (mkReq MPost (PAddVersion (IdOk p)) (COk c) CTHistory cs) E =
+     [(OEnsure c, Hist.noenv); (OAddVersion c p (body_of cs), E)]) /\
+  (forall c p ct cs, client_id_header allow (COk c) = inl c ->
+     lib_of_req allow (mkReq MGet (PGetChild (IdOk p)) (COk c) ct cs) E = [(OGetChild c p, E)]) /\
+  (forall m p ct cs, lib_of_req allow (mkReq m p CAbsent ct cs) E = []).
+Proof.
+  intros. split; [reflexivity|]. split; [|split].
+  - intros c p cs Hc Hb. unfold lib_of_req. cbn. cbn in Hc. rewrite Hc, Hb. reflexivity.
+  - intros c p ct cs Hc. unfold lib_of_req. cbn. cbn in Hc. rewrite Hc. reflexivity.
+  - reflexivity.
+Qed.
+Example C14_hresps_of_reading : forall cfg allow rq E h rs,
+  hresps_of cfg allow ((rq, E) :: h) rs =
+  (let n := length (lib_of_req allow rq E) in
+   match firstn n rs with
+   | [] => default_headers (match route cfg allow rq with HRet r => r | _ => plain 500 end)
+   | l => default_headers (encode (last l RError))
+   end :: hresps_of cfg allow h (skipn n rs)).
+Proof. intros. cbn [hresps_of]. unfold hresp_of. destruct (firstn (length (lib_of_req allow rq E)) rs); reflexivity. Qed.
